@@ -313,3 +313,57 @@ Proof.
   rewrite !step_dist_prel by assumption. rewrite Hm. rnum.
   replace (_ - _) with 0 by ring. now rewrite Rabs_R0.
 Qed.
+
+
+(* ---------- RPE is symmetric in the two trajectories (all relations except the ratio, which divides by the
+   reference's step length) ---------- *)
+Lemma nthp_Orth (l : list PoseR) i : Forall (fun p => Orth (prot p)) l -> Orth (prot (nthp l i)).
+Proof.
+  intros F. unfold nthp. destruct (Nat.lt_ge_cases i (length l)) as [H|H].
+  - rewrite Forall_forall in F. apply F, nth_In, H.
+  - rewrite nth_overflow by exact H. apply Orth_I.
+Qed.
+Lemma prel_Orth (a b : PoseR) : Orth (prot a) -> Orth (prot b) -> Orth (prot (prel a b)).
+Proof. intros Oa Ob. cbn [prel pmul pinv prot]. apply Orth_mm; [now apply Orth_mt|exact Ob]. Qed.
+Theorem rpe_pair_swap rel (ref est : list PoseR) p :
+  Forall (fun p => Orth (prot p)) ref -> Forall (fun p => Orth (prot p)) est ->
+  rpe_pairR rel est ref p = rpe_pairR rel ref est p.
+Proof.
+  intros Fr Fe. unfold rpe_pair, rpe_base, relative_se3.
+  set (Q := prel (nthp ref (fst p)) (nthp ref (snd p))). set (P := prel (nthp est (fst p)) (nthp est (snd p))).
+  assert (OQ : Orth (prot Q)) by (apply prel_Orth; now apply nthp_Orth).
+  assert (OP : Orth (prot P)) by (apply prel_Orth; now apply nthp_Orth).
+  assert (OE : Orth (prot (prel Q P))) by (now apply prel_Orth).
+  destruct rel; try (rewrite (prel_swap Q P OQ); apply reduce_pinv; exact OE);
+    rnum; f_equal; apply Rabs_minus_sym.
+Qed.
+Theorem rpe_swap rel pairs (ref est : list PoseR) : rel <> point_distance_error_ratio ->
+  Forall (fun p => Orth (prot p)) ref -> Forall (fun p => Orth (prot p)) est ->
+  rpeR rel pairs est ref = rpeR rel pairs ref est.
+Proof.
+  intros Hrel Fr Fe. unfold rpe. rewrite (Nat.eqb_sym (length est)). destruct (Nat.eqb _ _); [|reflexivity]. cbn [negb].
+  assert (Hseq : sequence (map (rpe_pairR rel est ref) pairs) = sequence (map (rpe_pairR rel ref est) pairs)).
+  { apply sequence_map_ext. intros p _. now apply rpe_pair_swap. }
+  destruct rel; rewrite ?Hseq; try reflexivity. now elim Hrel.
+Qed.
+(* the ratio is NOT symmetric: it divides by the step length of the trajectory in the reference role *)
+Theorem rpe_ratio_not_symmetric : exists (ref est : list PoseR) pairs,
+  Forall (fun p => Orth (prot p)) ref /\ Forall (fun p => Orth (prot p)) est /\
+  rpeR point_distance_error_ratio pairs est ref <> rpeR point_distance_error_ratio pairs ref est.
+Proof.
+  exists [pI; mkPose I3 (mkV3 1 0 0)], [pI; mkPose I3 (mkV3 2 0 0)], [(0, 1)%nat].
+  split; [repeat constructor; apply Orth_I|]. split; [repeat constructor; apply Orth_I|].
+  unfold rpe. cbn [length Nat.eqb negb]. unfold nonzero_b, step_dist, nthp, norm. cbn [nth fst snd ptr pI filter map].
+  lin_unfold. rnum.
+  assert (S2 : sqrt ((0 - 2) * (0 - 2) + (0 - 0) * (0 - 0) + (0 - 0) * (0 - 0)) = 2)
+    by (replace ((0 - 2) * (0 - 2) + (0 - 0) * (0 - 0) + (0 - 0) * (0 - 0)) with (2 * 2) by ring; apply sqrt_square; lra).
+  assert (S1 : sqrt ((0 - 1) * (0 - 1) + (0 - 0) * (0 - 0) + (0 - 0) * (0 - 0)) = 1)
+    by (replace ((0 - 1) * (0 - 1) + (0 - 0) * (0 - 0) + (0 - 0) * (0 - 0)) with (1 * 1) by ring; apply sqrt_square; lra).
+  rewrite !S1, !S2.
+  assert (E2 : Reqb 2 0 = false) by (unfold Reqb; destruct (Req_EM_T 2 0); [lra|reflexivity]).
+  assert (E1 : Reqb 1 0 = false) by (unfold Reqb; destruct (Req_EM_T 1 0); [lra|reflexivity]).
+  rewrite E1, E2. cbn [negb filter map snd]. rewrite ?S1, ?S2. intros H. injection H as H.
+  lin_unfold. rnum. cbn [vx vy vz ptr prot fst snd nth] in H. rewrite ?S1, ?S2 in H. rewrite (Rabs_minus_sym 1 2) in H. replace (2 - 1) with 1 in H by ring. rewrite Rabs_R1 in H. lra.
+Qed.
+
+
